@@ -447,6 +447,28 @@ def gen_groups(quick):
             ok = all(not (0xd800 <= c <= 0xdfff) and c <= 0x10ffff for c in t)
             items.append((vec(*[num(c) for c in t]), "%d cps %s" % (n, "ok" if ok else "bad")))
     G.append(Group("from_code_points", NIL, [items], ("from_code_points",)))
+    G += quoted_groups()
+    return G
+
+
+def quoted_groups():
+    """round 9, error path: the offending value quoted in a message is LONG and NON-ASCII (every alignment of 2-/3-/4-byte
+    characters against byte offsets 61/70/130).  These tie the embedding of Display into the messages to M and S; the full
+    ladder of lengths, containers and sites is in C13_scale.py (closed-form oracle)."""
+    G = []
+    for w, ch in ((2, "\u00e9"), (3, "\u20ac"), (4, "\U0001F600")):
+        for off in range(w):
+            for T in (61, 70, 130):
+                t = "a" * off + ch * ((T - off) // w + 1)
+                keys = [(st(t), "long str"), (vec(st(t)), "vec of long str"), (tup(num(1), st(t)), "tuple with long str")]
+                G.append(Group("set_item", vec(num(1), num(2)), [keys, [(num(0), "0")]], ("set_item", "quoted")))
+                G.append(Group("find", st("abc"), [[(st("b"), "1-char hit")], keys], ("find", "quoted")))
+                G.append(Group("char_byte_index", st("abc"), [keys], ("cbi", "quoted")))
+                G.append(Group("index", st("abc"), [keys[:1], [(num(1), "+1")]], ("str-range", "quoted"), as_range=True))
+                G.append(Group("find", st("abc"), [keys[1:], [(num(0), "0")]], ("find", "quoted sub")))
+                G.append(Group("from_utf8", NIL, [[(vec(num(97), st(t)), "long str element"), (st(t), "long str"), (tup(st(t)), "tuple")]],
+                               ("from_utf8", "quoted")))
+                G.append(one("to_num", st(t), [], ("to_num", "quoted")))
     return G
 
 
@@ -812,15 +834,18 @@ def r9_violation(ctx, what, case, verdict, profile, **extra):
 
 
 def run_r9(ctx):
+    import time
+    t0 = time.time()
     SC = _scale_mod()
     scale = SC.scale_cases(ctx.quick())
     err_cases, n_err = SC.errpath_cases()
     found = []                                    # (sort key, what, case, verdict, profile, extra)
-    n_ops = 0
+    n_ops = n_scale_ops = 0
     for profile in ("release", "debug"):
         binary = ctx.harness(profile)
         sel = [c for c, n in scale if profile == "release" or n <= DEBUG_MAX_N]
         n_ops += sum(len(c["ops"]) for c in sel)
+        n_scale_ops += sum(len(c["ops"]) for c in sel)
         res = r9_run_believed(SC, binary, sel)
         bad = [(c, r) for c, r in zip(sel, res) if r is not None]
         by_op = {}
@@ -832,7 +857,10 @@ def run_r9(ctx):
                           c, r, profile, {"failing_programs_in_family": len(bad), "first_differing_operation_counts": by_op}))
         n_ops += n_err
         res = r9_run_believed(SC, binary, err_cases)
-        badp = [c for c, r in zip(err_cases, res) if r is not None]
+        is_panic = lambda r: isinstance(r.get("result"), list) and r["result"][:1] == ["panic"]
+        badpr = [(c, r) for c, r in zip(err_cases, res) if r is not None]
+        badpr.sort(key=lambda cr: not is_panic(cr[1]))          # programs that PANIC are split first
+        badp = [c for c, _ in badpr]
         # a program with a difference is split into its probes (a panic hides the probes after it)
         singles = []
         for c in badp[:12]:
@@ -853,20 +881,22 @@ def run_r9(ctx):
                 k = c["label"].split(" <- ")[0]
                 sites[k] = sites.get(k, 0) + 1
             for c, r in bad1:
-                found.append(((1, len(c["src"])), "an error message that quotes the offending value is not the documented error (error-path family: %s)" % c["label"],
+                found.append(((1, not is_panic(r), len(c["src"])), "an error message that quotes the offending value is not the documented error (error-path family: %s)" % c["label"],
                               c, r, profile, {"failing_probes_found": len(bad1), "failing_programs": len(badp), "failing_probes_per_site": sites}))
             if badp and not bad1:
                 c = badp[0]
                 r = [x for x in res if x is not None][0]
-                found.append(((1, len(c["src"])), "error-path family: a program of probes differs but none of its probes alone does (%s)" % c["label"], c, r, profile, {}))
+                found.append(((1, True, len(c["src"])), "error-path family: a program of probes differs but none of its probes alone does (%s)" % c["label"], c, r, profile, {}))
         if found and profile == "release":
             break                                  # the debug pass would only repeat it
+    log("[C13] round 9: %d scale programs (%d operations), %d error-path probes per build, %d differences, %.1fs" % (
+        len(scale), n_scale_ops, n_err, len(found), time.time() - t0))
     found.sort(key=lambda f: f[0])
     # smallest scale witness, smallest error-path witnesses; at most 4 in all
     picked = [f for f in found if f[0][0] == 0][:2] + [f for f in found if f[0][0] == 1][:2]
     for _, what, c, r, profile, extra in picked:
         r9_violation(ctx, what, c, r, profile, **extra)
-    return {"r9_scale_programs": len(scale), "r9_scale_ladder": SC.POW + SC.BEYOND, "r9_scale_operations_checked": n_ops - 2 * n_err if not found else n_ops,
+    return {"r9_scale_programs": len(scale), "r9_scale_ladder": SC.POW + SC.BEYOND, "r9_scale_operations_checked": n_scale_ops,
             "r9_errpath_probes": n_err, "r9_errpath_sites": [s[0] for s in SC.SITES], "r9_errpath_value_lengths": SC.LADDER_FULL,
             "r9_failing": len(found), "r9_evaluations": n_ops}
 
@@ -890,11 +920,11 @@ def run(ctx):
         check(ctx, [p.group()], "replay")
         ctx.cov.update({"evaluations": 1, "distinct_nontrivial": 0, "rule": "replay of one probe", "samples": [p.snippet()]})
         return
+    r9 = run_r9(ctx)            # first: cheap (seconds), and independent of the Coq evaluation of the sweep
     groups = gen_groups(quick)
     probes = [p for g in groups for p in g.probes()]
     combos, nprinted, nsample, n_viol = check(ctx, groups, "sweep")
     n_esc = check_escapes(ctx, ctx.harness("debug"))
-    r9 = run_r9(ctx)
     per_fn = {}
     for p in probes:
         per_fn[p.fn] = per_fn.get(p.fn, 0) + 1
